@@ -17,7 +17,7 @@ import copy
 
 from hypothesis import strategies as st
 
-from vlib import boot, hyp, rm, sd, tg
+from vlib import boot, fuzz, hyp, rm, sd, tg
 
 LEVEL = 'exploration'
 RULE = ('case = (class table, history of <= 25 operations on a shared pool of type objects); operations: new, substitute_type with '
@@ -349,21 +349,33 @@ def _plain(x):
     return list(x) if isinstance(x, (list, tuple)) else x
 
 
-def run_shard(spec, col):
-    boot.init_types_only()
-    from src import utils  # noqa: F401 (word pool import is seeded by init_types_only)
-    lang = spec['lang']
-    strategy = cases(lang)
-    found = {}
-
+def make_one(col, found):
     def one(case):
         u, ops = case
         for sig, d in judge(u, ops, col):
             size = len(ops) * 10 + len(u.order)
             col.violation(sig, dict(d, table=u.describe()), {'universe': u.spec(), 'ops': [_plain_op(o) for o in ops]}, size=size)
             found[sig] = found.get(sig, 0) + 1
+    return one
+
+
+def fuzz_entry(spec, col):
+    """coverage-guided leg (vlib/fuzz.py): same strategy (operation histories), same judge."""
+    boot.init_types_only()
+    from src import utils  # noqa: F401
+    return cases(spec['lang']), make_one(col, {})
+
+
+def run_shard(spec, col):
+    boot.init_types_only()
+    from src import utils  # noqa: F401 (word pool import is seeded by init_types_only)
+    lang = spec['lang']
+    strategy = cases(lang)
+    found = {}
+    one = make_one(col, found)
     n = 600 if col.tier == 'quick' else 8000
     hyp.explore(strategy, one, n, col.shard_seed())
+    fuzz.campaign('C07', spec, col, runs=300 if col.tier == 'quick' else 10000)
     for sig in sorted(found)[:3]:
         best = {}
 
